@@ -293,6 +293,19 @@ pub fn run_decode(ctx: &mut Ctx, v: &J) {
                 a => json!({"kind": "harness", "err": format!("unknown api {}", a)}),
             };
             judge_decode(ctx, v, api, &o);
+            // "every supported value encodes back to a CBOR integer of the same value"
+            if let Some(want) = v["expect"]["reenc"].get(0) {
+                if o["kind"] == "ok" && api == "slice" {
+                    let mut m = Machine::new();
+                    m.wire = Some(bytes.clone());
+                    let _ = m.step(&json!({"ev": "decode", "api": "slice", "ty": v["ty"], "reg": v["reg"]}));
+                    let e = m.step(&json!({"ev": "encode", "api": "vec"}));
+                    if e["kind"] != "harness" && (e["kind"] != "ok" || e["bytes"][0] != *want) {
+                        let p = main_prop(v);
+                        ctx.mismatch(&p, v, "re-encoding-differs", json!({"obs": e}));
+                    }
+                }
+            }
         }
     }
 }
